@@ -401,6 +401,14 @@ def _check_then_act(res: Result, starter: FuncInfo, target: FuncInfo, fi: FuncIn
                 continue
             locked = any(isinstance(w, ast.With) and any(x is n for x in ast.walk(w)) for w in ast.walk(fi.node))
             readback = [x for x in walk_no_nested(fi.node) if isinstance(x, ast.Attribute) and isinstance(x.ctx, ast.Load) and dotted(x) == d]
+            # the snapshot idiom is safe without a lock: the attribute only ever holds an immutable tuple (keys and value published in one
+            # store) and is only ever copied into a local before use - whatever thread wrote it, the tuple read is consistent in itself
+            stores_ = [m_ for m_ in walk_no_nested(fi.node) if isinstance(m_, ast.Assign) and any(dotted(t_) == d for t_ in m_.targets)]
+            parents_ = {id(c_): p_ for p_ in ast.walk(fi.node) for c_ in ast.iter_child_nodes(p_)}
+            if isinstance(n, ast.Assign) and all(isinstance(m_.value, ast.Tuple) or (isinstance(m_.value, ast.Constant) and m_.value.value is None) for m_ in stores_) \
+                    and all(isinstance(parents_.get(id(x)), ast.Assign) and parents_[id(x)].value is x and isinstance(parents_[id(x)].targets[0], ast.Name) for x in readback):
+                res.ob("LOCKSET", "%s: %s is an immutable snapshot, copied before use" % (fi.qual, d), True)
+                continue
             res.check("LOCKSET", "%s: worker-written attribute %s is not read back unlocked" % (fi.qual, d), locked or not readback, fi.loc(n), fi.qual,
                       norm_stmt(n)[:80],
                       "%s stores into %s and reads it back (%s) without a lock, while %s starts one thread per requested equation over this one "
